@@ -67,8 +67,10 @@ impl World {
     fn effective(&self, file: &str) -> Option<String> {
         self.overrides.get(file).cloned().or_else(|| self.disk.get(file).cloned().flatten())
     }
-    fn key(&self, starknet: bool) -> u64 {
-        let mut s = String::new();
+    fn key(&self, starknet: bool, project: &str) -> u64 {
+        // The project identity (crate names, settings, plugin set) is part of the key: two
+        // single-file projects can reach identical file contents (both truncated to nothing).
+        let mut s = format!("P{project}\u{3}");
         for (k, v) in &self.disk {
             s.push_str(&format!("D{k}\u{1}{:?}\u{2}", v));
         }
@@ -101,8 +103,8 @@ static FRESH_MEMO: Mutex<Option<HashMap<u64, Result<Obs, String>>>> = Mutex::new
 pub static FRESH_HITS: std::sync::atomic::AtomicU64 = std::sync::atomic::AtomicU64::new(0);
 pub static FRESH_MISSES: std::sync::atomic::AtomicU64 = std::sync::atomic::AtomicU64::new(0);
 
-fn fresh_observation(root: &Path, world: &World, starknet: bool, use_memo: bool) -> Result<Obs, String> {
-    let key = world.key(starknet);
+fn fresh_observation(root: &Path, world: &World, starknet: bool, project: &str, use_memo: bool) -> Result<Obs, String> {
+    let key = world.key(starknet, project);
     if use_memo {
         if let Some(v) = FRESH_MEMO.lock().unwrap().get_or_insert_with(HashMap::new).get(&key) {
             FRESH_HITS.fetch_add(1, std::sync::atomic::Ordering::Relaxed);
@@ -245,7 +247,7 @@ pub fn run_history(project: &Project, ops: &[Op], scratch: &Path, use_memo: bool
                 let before = dbx::exec_count();
                 let inc = dbx::observe_in(&sut.db, &sut.main, scratch);
                 stats.queries_executed_incremental += dbx::exec_count() - before;
-                let fresh = fresh_observation(scratch, &world, project.starknet, use_memo);
+                let fresh = fresh_observation(scratch, &world, project.starknet, &format!("{}:{}", project.name, project.files.get("cairo_project.toml").map(|s| s.as_str()).unwrap_or("")), use_memo);
                 let class = state_class(&fresh);
                 stats.counters.inc(&format!("state/{class}"));
                 stats.transitions.insert(format!("{prev_class}->{class}"));
@@ -646,7 +648,12 @@ pub fn run(opts: Opts, projects: Vec<Project>) -> i32 {
         });
         let mut st = RunStats::default();
         let Some(v2) = run_history(project, &min_ops, &scratch_dir("min"), false, &mut st) else {
-            harness_error("minimised history does not fail (nondeterminism in the harness)");
+            let mut st0 = RunStats::default();
+            let again = run_history(project, &r.ops, &scratch_dir("min"), false, &mut st0).map(|x| x.class);
+            harness_error(&format!(
+                "minimised history does not fail (project {}, history seed {}, class {}, {} ops -> {} ops; full history without memo: {:?})",
+                project.name, r.seed, class, r.ops.len(), min_ops.len(), again
+            ));
         };
         let sig = signature(project, &min_ops, &v2);
         if !reported.insert(sig.clone()) {
